@@ -74,3 +74,25 @@ Theorem C01_resolve_total :
     exists r, the_resolve act ign calls = Ok r.
 Proof. exact (resolve_total gen_category_priority gen_aliases gen_offset). Qed.
 Print Assumptions C01_resolve_total.
+
+(* the sectional resolver (pedal/resolvers/sectional.py): the triggered feedback grouped by parent section, every group
+   resolved on its own.  For every group g the feedback delivered for g belongs to g, is eligible, and is the best and the
+   earliest of its key AMONG THE FEEDBACK OF g; feedback of other groups takes no part. *)
+Theorem C01_sectional_selects_best_in_the_group :
+  forall tagged calls g r,
+    the_sectional_at tagged calls g = Ok r ->
+    let s := the_supp calls in
+    match r_used r with
+    | Some u =>
+        exists f l1 l2, f_id f = u /\ In (g, f) tagged /\ group_of tagged g = l1 ++ f :: l2 /\ eligible s f = true
+          /\ (forall h, In (g, h) tagged -> eligible s h = true -> the_key f <= the_key h)
+          /\ (forall h, In h l1 -> eligible s h = true -> the_key f < the_key h)
+    | None => forall h, In (g, h) tagged -> eligible s h = false
+    end.
+Proof. exact (sectional_selects_best_in_the_group gen_category_priority gen_aliases gen_offset). Qed.
+Print Assumptions C01_sectional_selects_best_in_the_group.
+
+Theorem C01_sectional_ignores_other_groups :
+  forall tagged calls g g' f, g' <> g -> the_sectional_at ((g', f) :: tagged) calls g = the_sectional_at tagged calls g.
+Proof. exact (sectional_ignores_other_groups gen_category_priority gen_aliases gen_offset). Qed.
+Print Assumptions C01_sectional_ignores_other_groups.
